@@ -130,6 +130,40 @@ theorem stop_on_blocker (L : List LogEv) (out : GenLog.Out) (h : compute K L = .
     (hn : ∀ k ∈ stopSpec L, k.name ≠ K.relabelName) : ioKeys out.rails = stopSpec L :=
   compute_ioKeys K L out h hn
 
+/-- **The returned log lists the rails that actually ran, `stop` on exactly the blocking one** — for the log a turn
+    writes: whatever the configuration (rails with marker-free bodies), options, texts and dialog, when
+    `compute_generation_log` returns on the turn's processing log, its input/output rails are exactly the input/output
+    rail calls of the trace, in order, and `stop` is set on the last of them iff the turn was ended by a rejecting or
+    faulting rail (`out.blocker`), on no other. -/
+theorem log_lists_ran (cfg : Cfg) (hc : cfg.clean) (opts : Option Opts) (user : String) (bot : Option String) (dlg : Dialog)
+    (out : PipelineOpts.Out) (h : turn Gd cfg opts user bot dlg = some out)
+    (hn : ∀ c i n x, Step.railCall c i n x ∈ out.trace → n ≠ K.relabelName)
+    (gl : GenLog.Out) (hg : compute K out.log = .ok gl) :
+    ioKeys gl.rails = markLast out.blocker.isSome (ioCalls out.trace) := by
+  have hs := turn_stopSpec cfg hc opts user bot dlg out h
+  rw [← hs]
+  apply stop_on_blocker out.log gl hg
+  intro k hk
+  rw [hs] at hk
+  obtain ⟨c, i, x, hm⟩ := mem_ioCalls _ _ _ (mem_markLast _ _ _ hk)
+  exact hn c i k.name x hm
+
+/-- non-vacuity of `log_lists_ran` (finite facts, by evaluation): for `exCfg`, options input+output and a bot message the
+    output rail rejects, the hypotheses hold, `compute` returns, and the log reads: in0, in1 ran, out0 blocked. -/
+example : exCfg.clean := exCfg_clean
+example : (turn Gd exCfg (some ⟨true, false, false, true⟩) "hi" (some "evil") (.general "x")).map
+      (fun o => (o.reply, o.blocker, ioCalls o.trace))
+    = some (.text "no", some (.output, "out0"), [(.input, "in0"), (.input, "in1"), (.output, "out0")]) := by decide
+example : (turn Gd exCfg (some ⟨true, false, false, true⟩) "hi" (some "evil") (.general "x")).map
+      (fun o => namesAvoid K.relabelName o.trace) = some true := by decide
+example : ((turn Gd exCfg (some ⟨true, false, false, true⟩) "hi" (some "evil") (.general "x")).map fun o =>
+      (compute K o.log).toOption.map fun g => ioKeys g.rails)
+    = some (some [⟨.input, "in0", false⟩, ⟨.input, "in1", false⟩, ⟨.output, "out0", true⟩]) := by decide
+/-- … and for the default pipeline (no options) with the LLM text passing: five rails, no stop, one LLM call. -/
+example : ((turn Gd exCfg none "hi" none (.general "fine")).map fun o =>
+      ((compute K o.log).toOption.map fun g => (ioKeys g.rails, g.rails.length, g.llmCalls), o.reply))
+    = some (some ([⟨.input, "in0", false⟩, ⟨.input, "in1", false⟩, ⟨.output, "out0", false⟩], 4, 1), .text "fine") := by decide
+
 /-- the same for arbitrary literal tables (the statement does not depend on which flows / actions are ignored) -/
 theorem stop_on_blocker_any_tables (K' : Consts) (L : List LogEv) (out : GenLog.Out) (h : compute K' L = .ok out)
     (hn : ∀ k ∈ stopSpec L, k.name ≠ K'.relabelName) : ioKeys out.rails = stopSpec L :=
